@@ -1,9 +1,9 @@
 package rules
 
 import (
-	"go/token"
 	"fmt"
 	"go/ast"
+	"go/token"
 	"go/types"
 
 	"verif/checker/core"
